@@ -78,6 +78,30 @@ def run(chk: Check) -> None:
             chk.ob("R10.1", "Symbol.%s:getter-reads-what-setter-stores" % pname, st <= reads, g.loc(),
                    "the %s getter reads %s but the setter stores %s" % (pname, sorted(reads), sorted(st)), 2)
 
+    for pname, want_block in (("value", False), ("referent", True)):
+        pr = sym.props.get(pname)
+        if pr is None or pr.getter is None:
+            continue
+        g = pr.getter
+        chk.saw(g)
+        cfgp = CFG(g.node)
+        me = g.self_name
+        pay = cfgp.nodes_where(lambda n: isinstance(n, ast.Return) and n.value is not None
+                               and attr_path(n.value) == (me, "_payload"))
+        isblk: Set[int] = set()
+        for tn, i in cfgp.info.items():
+            if i.kind == "test" and isinstance(i.ast, ast.Call) and attr_path(i.ast.func) == ("isinstance",) \
+                    and attr_path(i.ast.args[0]) == (me, "_payload") and "Block" in unparse(i.ast.args[1]):
+                for b in cfgp.g.successors(tn):
+                    bi_ = cfgp.info[b]
+                    if bi_.kind == "branch" and bi_.value == want_block:
+                        isblk.add(b)
+        ok = bool(pay) and bool(isblk) and all(cfgp.path_avoiding(cfgp.entry, p_, isblk) is None for p_ in pay)
+        chk.ob("R10.1", "Symbol.%s:payload-partition" % pname, ok, g.loc(),
+               "Symbol.%s must be the payload exactly when it is%s a Block (and None otherwise): value "
+               "and referent partition the one stored payload the indexes are keyed by"
+               % (pname, "" if want_block else " not"), 2)
+
     # R10.2 ---------------------------------------------------------------
     def touched(f) -> Tuple[Set[Tuple[str, str]], Dict[Tuple[str, str], str], List[str]]:
         me, p = f.self_name, f.param_names()[1]
@@ -129,6 +153,14 @@ def run(chk: Check) -> None:
                % (f.qualname, meths[0], len(calls)), 2)
     dels = [n for n in walk_no_nested(dis.node) if isinstance(n, ast.Delete)]
     ok = len(dels) >= 2 and all(isinstance(getattr(d, "_parent", None), ast.If) for d in dels)
+    for d_ in dels:
+        par_ = getattr(d_, "_parent", None)
+        if isinstance(par_, ast.If):
+            t_ = par_.test
+            empty_when_true = (isinstance(t_, ast.UnaryOp) and isinstance(t_.op, ast.Not)
+                               and isinstance(t_.operand, ast.Name)) or (
+                isinstance(t_, ast.Compare) and "len(" in unparse(t_) and isinstance(t_.ops[0], ast.Eq))
+            ok = ok and empty_when_true and d_ in par_.body
     chk.ob("R10.2", "Module._index_discard:drops-empty-buckets", ok, dis.loc(),
            "_index_discard must delete a bucket once it is empty (symbols_named / references "
            "would otherwise see stale empty buckets accumulate)", 1)
